@@ -294,9 +294,86 @@ def replay(case):
     return judge(case)
 
 
+# ---- atheris adapters (thorough tier): bytes -> the same case grammar, oracle inside the target --------------------------
+
+def _fuzz_number(fdp, allow_zero=True):
+    mant = fdp.ConsumeIntInRange(0 if allow_zero else 1, 999999)
+    digits = fdp.ConsumeIntInRange(0, 5)
+    frac = Fraction(mant, 10 ** digits)
+    while frac > 99:
+        frac /= 10
+    from decimal import Decimal
+    txt = format(Decimal(frac.numerator) / Decimal(frac.denominator), "f")
+    style = fdp.ConsumeIntInRange(0, 3)
+    if style == 1:
+        txt = f"{Decimal(frac.numerator) / Decimal(frac.denominator):E}"
+    elif style == 2:
+        txt = "+" + txt
+    elif style == 3 and txt.startswith("0."):
+        txt = txt[1:]
+    return txt
+
+
+def fuzz_decode(fdp):
+    ws = ["", " ", "  ", "\t"]
+    kind = fdp.ConsumeIntInRange(0, 5)
+    sep = lambda: ws[fdp.ConsumeIntInRange(0, 3)] + "," + ws[fdp.ConsumeIntInRange(0, 3)]
+    if kind <= 2:
+        n = fdp.ConsumeIntInRange(1, 8)
+        toks, seen = [], set()
+        for _ in range(n):
+            t = _fuzz_number(fdp)
+            if frac_of(t) not in seen:
+                seen.add(frac_of(t))
+                toks.append(t)
+        k = ["list", "tuple", "bare"][kind]
+        if len(toks) == 1 and k == "bare":
+            k = "number"
+        case = {"kind": k, "tokens": toks}
+        shown = list(toks)
+        if fdp.ConsumeIntInRange(0, 9) == 0:
+            i = fdp.ConsumeIntInRange(0, len(toks) - 1)
+            t = toks[i].lstrip("+")
+            shown[i] = "-" + (t if frac_of(t) != 0 else "1.5")
+            case["has_negative"] = True
+        body = sep().join(shown)
+        case["text"] = {"list": "[" + body + "]", "tuple": "(" + body + ("," if len(toks) == 1 else "") + ")", "bare": body,
+                        "number": shown[0]}[k]
+        return case
+    if kind == 3:
+        a = _fuzz_number(fdp)
+        span = Fraction(fdp.ConsumeIntInRange(1, 50000), 1000)
+        from decimal import Decimal
+        bf = frac_of(a) + span
+        b = format(Decimal(bf.numerator) / Decimal(bf.denominator), "f")
+        args = [a, b] + ([str(fdp.ConsumeIntInRange(2, 60))] if fdp.ConsumeBool() else [])
+        return {"kind": "linspace", "args": args, "text": "linspace(" + sep().join(args) + ")"}
+    from decimal import Decimal
+    fmt = lambda fr: format(Decimal(fr.numerator) / Decimal(fr.denominator), "f")
+    a = _fuzz_number(fdp)
+    step = max(Fraction(fdp.ConsumeIntInRange(1, 9000), 1000), Fraction(1, 100))
+    count = Fraction(fdp.ConsumeIntInRange(1, 200), [1, 2, 3, 10][fdp.ConsumeIntInRange(0, 3)])
+    stop = frac_of(a) + step * count
+    args = [a, fmt(Fraction(round(stop * 1000), 1000)), fmt(step)]
+    if Fraction(args[1]) <= frac_of(a):
+        args[1] = fmt(frac_of(a) + step)
+    return {"kind": "range", "args": args, "text": ["range", "arange"][fdp.ConsumeBool()] + "(" + sep().join(args) + ")"}
+
+
+def fuzz_judge(case):
+    return judge(case)
+
+
+def fuzz_nontrivial(case):
+    return nontrivial(case)
+
+
 def run(tier):
     total = 16000 if tier == "quick" else 400000
     res = merge_results(pmap(_hyp_shard, [(s, total // 16) for s in range(16)]))
+    if tier == "thorough":
+        from vlib.core import run_fuzz_campaign
+        res.merge(run_fuzz_campaign("C16", runs=400000, shards=16))
     rule = ("Hypothesis text generation: non-negative decimals with <=6 significant digits in plain/scientific/'+'/leading-dot "
             "spellings; lists, tuples, bare comma lists (any order, 1..8 distinct members), single numbers, "
             "linspace(a,b[,n]) with a<b and n in 2..60, range/arange/np.arange with 1..3 arguments (start<stop, step>0, "
